@@ -183,6 +183,7 @@ SENTENCES = [
     "y ~ I ( a < b == c ) + g ( a == b != c , k = a + b * c )", "y ~ I ( a >= b < c <= d )", "y ~ f ( a + 1 > b == c - 2 )", "y ~ { a - b - c } + { a / b * c }",
     "y ~ f ( a ** b ** c , - a ** b ) : g ( a * b : c )",
     "y ~ f ( x , k = 2 ) + f ( x , k = 3 )", "y ~ f ( x , 2 ) + f ( x , 3 )", "y ~ f ( x , k = 's' ) : f ( x , k = 't' )", "y ~ f ( x , k = True ) + f ( x , k = False ) + ( 1 | g ( h , 1 ) ) + ( 1 | g ( h , 2 ) )",
+    "y ~ x [ ( a ) ]", "x [ ( 'a' ) ] ~ b", "y [ `a` ] ~ b", "y [ { a } ] ~ b", "y [ f ( a ) ] ~ b", "y ~ a + x [ ( ( b ) ) ]", "y [ - a ] ~ b", "y [ 1 ] ~ b",
     "y [ '' ] ~ a", 'y [ "" ] ~ a + f ( b , \'\' )', "y [ ' ' ] ~ a", "y [ 's' ] ~ f ( a , k = '' ) + f ( a , k = 's' )",
 ]
 # chains around a multi-term base: associativity of ** and its precedence against : * / + are only observable here
